@@ -19,9 +19,9 @@ func c03Universe(which int) []TNode {
 	common := []string{".git/x", ".terraform/y", ".terraform/modules/m", "sub/.git/x", "sub/.terraform/modules/m", "sub/.terraform/z", "sub/a"}
 	var files []string
 	if which == 1 {
-		files = []string{"a/a", "a/b", "a/ab/a", "a/ab/b", "ab/a", "ab/b/a", "ab/b/ab", "b", "aab", "a+b", "a.b", "axb", "(a)"}
+		files = []string{"a/a", "a/b", "a/ab/a", "a/ab/b", "ab/a", "ab/b/a", "ab/b/ab", "b", "aab", "a+b", "a.b", "axb", "(a)", "é", "a/é", "A", "B/a"}
 	} else {
-		files = []string{"a", "ab", "b/a", "b/ab", "b/b/a", "aab/b/a", "aab/a", "a+b/a", "a.b/b", "axb/a", "axb/b/ab"}
+		files = []string{"a", "ab", "b/a", "b/ab", "b/b/a", "aab/b/a", "aab/a", "a+b/a", "a.b/b", "axb/a", "axb/b/ab", "é/a", "b/é", "A/b"}
 	}
 	for _, p := range append(files, common...) {
 		ns = append(ns, f(p))
@@ -229,7 +229,9 @@ func RunC03(tier string) int {
 		return js
 	}
 	// 0 rules and comment/blank variants
-	misc := [][]string{{}, {"# comment"}, {"", "a/"}, {"#a", "b"}, {"  a/  "}, {"a/", "", "!a/b"}}
+	misc := [][]string{{}, {"# comment"}, {"", "a/"}, {"#a", "b"}, {"  a/  "}, {"a/", "", "!a/b"},
+		{"A/"}, {"B"}, {"a/", "!A/b"}, {"a/\r"}, {"\ta/"}, {"a/\r", "!a/b\r"}, {"#", "b"}, {"!"}, {"!", "b"}, {"\\#a"}, {"b #x"},
+		{"é"}, {"é/"}, {"a/é"}, {"*é"}, {"?"}, {"a/?"}, {"*", "!é"}, {"*", "!a/é"}, {"É"}, {"a/", "!a/é"}, {"/é"}, {"b/é"}}
 	runJobs("misc(comment/blank/indent)", mk(misc, []int{1, 2}, consumers))
 	var one [][]string
 	for _, r := range all {
